@@ -1544,6 +1544,87 @@ def gen_sbuf(repo):
            "end LLFree.Gen.S"]
     return "\n".join(out) + "\n"
 
+class IdxEmit:
+    """the index computation of `Trees::search` / `Trees::search_best` (usize / isize arithmetic with casts):
+    usize values are `Nat`, `as isize` / `.cast_signed()` gives an `Int`, `as usize` / `.cast_unsigned()` reduces it
+    modulo 2^64 (two's complement), `%` on usize is `Nat` remainder"""
+    def ex(self, e):
+        """returns (term, type) with type in {'nat', 'int', 'bool'}"""
+        k = e[0]
+        if k == 'num': return str(e[1]), 'nat'
+        if k == 'path':
+            if e[1] in ('i', 'off', 's'): return e[1], {'i': 'nat', 'off': 'int', 's': 'int'}[e[1]]
+            raise TranslateError(f"idx: path {e[1]}")
+        if k == 'field' and e == ('field', ('path', 'start'), '0'): return 'start', 'nat'
+        if k == 'tuple' and len(e[1]) == 1: return self.ex(e[1][0])
+        if k == 'neg':
+            t, ty = self.ex(e[1])
+            if ty != 'int': raise TranslateError("idx: negation of an unsigned value")
+            return f"(-{t})", 'int'
+        if k == 'cast':
+            t, ty = self.ex(e[1])
+            if e[2] == 'isize' and ty == 'nat': return f"(({t} : Nat) : Int)", 'int'
+            if e[2] == 'usize' and ty == 'int': return f"(({t}) % (2 ^ 64 : Int)).toNat", 'nat'
+            raise TranslateError(f"idx: cast {ty} as {e[2]}")
+        if k == 'mcall':
+            r, name, a = e[1], e[2], e[3]
+            if name == 'cast_signed' and not a:
+                t, ty = self.ex(r)
+                if ty != 'nat': raise TranslateError("idx: cast_signed")
+                return f"(({t} : Nat) : Int)", 'int'
+            if name == 'cast_unsigned' and not a:
+                t, ty = self.ex(r)
+                if ty != 'int': raise TranslateError("idx: cast_unsigned")
+                return f"(({t}) % (2 ^ 64 : Int)).toNat", 'nat'
+            if name == 'is_multiple_of' and len(a) == 1:
+                t, ty = self.ex(r); u, _ = self.ex(a[0])
+                return f"({t} % {u} == 0)", 'bool'
+            if name == 'div_ceil' and len(a) == 1:
+                t, ty = self.ex(r); u, _ = self.ex(a[0])
+                return f"(({t} + {u} - 1) / {u})", 'nat'
+            if name == 'len' and r == ('field', ('path', 'self'), 'entries') and not a: return 'n', 'nat'
+            raise TranslateError(f"idx: method .{name}()")
+        if k == 'bin':
+            (a, ta), (b, tb) = self.ex(e[2]), self.ex(e[3])
+            if ta != tb: raise TranslateError(f"idx: mixed operands of {e[1]}")
+            if e[1] in ('+', '/', '%'): return f"({a} {e[1]} {b})", ta
+            raise TranslateError(f"idx: operator {e[1]}")
+        if k == 'if':
+            c, tc = self.ex(e[1])
+            (a, ta), (b, tb) = self.blk(e[2]), self.blk(e[3])
+            if tc != 'bool' or ta != tb: raise TranslateError("idx: if")
+            return f"(if {c} then {a} else {b})", ta
+        if k == 'call' and e[1] == 'TreeId' and len(e[2]) == 1: return self.ex(e[2][0])
+        raise TranslateError(f"idx: expression {k}")
+    def blk(self, b):
+        if b is None or b[0] != 'block' or b[1] or b[2] is None: raise TranslateError("idx: block")
+        return self.ex(b[2])
+
+def gen_idx(repo):
+    """the candidate index of `Trees::search` and `Trees::search_best` (alternating before and after `start`)"""
+    src = read(os.path.join(repo, 'core/src/trees.rs'))
+    out = ["/- GENERATED by tools/rs2lean.py from core/src/trees.rs (`Trees::search`, `Trees::search_best`: candidate index) — do not edit. -/",
+           "namespace LLFree.Gen.I", ""]
+    for fn, lean in (('search', 'searchIdx'), ('search_best', 'searchBestIdx')):
+        params, body = extract_fn(src, fn, within='impl<\'a> Trees<\'a> {')
+        m = re.search(r"for\s+i\s+in\s+offset\.\.len\s*\{", body)
+        if not m: raise TranslateError(f"{fn}: expected `for i in offset..len {{`")
+        loop = block_after(body, m.group(0))
+        # the three lets at the head of the loop body
+        head = re.sub(r"//[^\n]*", "", loop)
+        cut = head.index(';', head.index('let i ='))
+        blk = P(tokenize_str(head[:cut + 1] + '}')).block()
+        names = [st[1][1] for st in blk[1] if st[0] == 'let']
+        if names != ['off', 's', 'i'] or len(blk[1]) != 3: raise TranslateError(f"{fn}: loop head lets {names}")
+        em = IdxEmit()
+        terms = [em.ex(st[2]) for st in blk[1]]
+        if [t for _, t in terms] != ['int', 'int', 'nat']: raise TranslateError(f"{fn}: types {[t for _, t in terms]}")
+        out += [f"/-- `Trees::{fn}`: the tree visited in iteration `i` (`n = self.entries.len()`) -/",
+                f"def {lean} (start n i : Nat) : Nat :=",
+                f"  let off : Int := {terms[0][0]}", f"  let s : Int := {terms[1][0]}", f"  {terms[2][0]}", ""]
+    out.append("end LLFree.Gen.I")
+    return "\n".join(out) + "\n"
+
 def gen_huge(repo):
     """`impl HugeEntry` (lower.rs): a u16 counter with `u16::MAX` as the marker of a huge allocation"""
     src = read(repo + '/core/src/lower.rs')
@@ -1582,7 +1663,7 @@ def gen_huge(repo):
     out.append("end LLFree.Gen.H")
     return "\n".join(out) + "\n"
 
-GENERATORS = {'Consts': gen_consts, 'Fza': gen_fza, 'Leaf': gen_leaf, 'Tree': gen_tree, 'Local': gen_local, 'Huge': gen_huge, 'Policy': gen_policy, 'Toggle': gen_toggle, 'Check': gen_check, 'Meta': gen_meta, 'Sbuf': gen_sbuf}
+GENERATORS = {'Consts': gen_consts, 'Fza': gen_fza, 'Leaf': gen_leaf, 'Tree': gen_tree, 'Local': gen_local, 'Huge': gen_huge, 'Policy': gen_policy, 'Toggle': gen_toggle, 'Check': gen_check, 'Meta': gen_meta, 'Sbuf': gen_sbuf, 'Idx': gen_idx}
 
 def write_if_changed(path, txt):
     if os.path.exists(path) and read(path) == txt: return False
